@@ -15,9 +15,9 @@ CHECKS["C18"] = dict(
     gen=dict(
         quick=[dict(mode="edges", spec="KVGen.tla", cfg="KVGenEdges.cfg", depth=12, max=1200, name="edges"),
                dict(mode="sim", spec="KVGen.tla", cfg="KVGenSim.cfg", depth=14, num=30, max=300, name="walks")],
-        thorough=[dict(mode="edges", spec="KVGen.tla", cfg="KVGenEdges.cfg", depth=12, name="edges"),
-                  dict(mode="sim", spec="KVGen.tla", cfg="KVGenSim.cfg", depth=25, num=400, max=6000, name="walks")]),
-    judge=dict(spec="KVTrace.tla", cfg="KVTrace.cfg"),
+        thorough=[dict(mode="edges", spec="KVGen.tla", cfg="KVGenEdges.cfg", depth=12, max=7000, name="edges"),
+                  dict(mode="sim", spec="KVGen.tla", cfg="KVGenSim.cfg", depth=25, num=400, max=3000, name="walks")]),
+    judge=dict(spec="KVTrace.tla", cfg="KVTrace.cfg"), driver_timeout=3600,
     corrupt=corrupt_field("get", "v", lambda e: e["v"] + 1),
     nontrivial=lambda s: any(o["op"] in ("put", "del") for o in s["ops"]) and any(o["op"] in ("get", "iter", "reopen") for o in s["ops"]),
     rule="TLC-generated histories over 5 prefix-sharing keys x 2 values/encodings (edges mode: one shortest history per "
